@@ -53,3 +53,23 @@ __CPROVER_loop_invariant(ghost_ok == 3 ==> out->okv == H)
 __CPROVER_loop_invariant(4 <= ghost_ok && ghost_ok < 4 + i ==> out->okv == GI(ghost_ok - 4))
 __CPROVER_decreases(GN - i)
 //@ end
+
+//@ function PedersenCommitmentScheme__Verify
+//@ contract
+__CPROVER_requires(__CPROVER_is_fresh(self, sizeof(*self)) && MPZ_OK(c) && MPZ_OK(r) && __tmcg_thrown == 0 && P != 0 && WORD_OK(V(r)))
+__CPROVER_requires(self->g.cap == GCAP && self->g.size <= GCAP && __CPROVER_is_fresh(self->g.data, GCAP * sizeof(mpz_ptr)) && __CPROVER_is_fresh(self->g.cells, GCAP * sizeof(__mpz_struct)))
+__CPROVER_requires(__CPROVER_is_fresh(m, sizeof(*m)) && m->cap == GCAP && m->size <= self->g.size && __CPROVER_is_fresh(m->data, GCAP * sizeof(mpz_ptr)) && __CPROVER_is_fresh(m->cells, GCAP * sizeof(__mpz_struct)))
+/* class invariant after construction: h's table belongs to h, one table per generator up to the limit */
+__CPROVER_requires(__CPROVER_is_fresh(self->fpowm_table_h, TMCG_MAX_FPOWM_T * sizeof(mpz_t)) && V(self->fpowm_table_h[0]) == H)
+__CPROVER_requires(self->fpowm_table_g.size == (self->g.size < TMCG_MAX_FPOWM_N ? self->g.size : TMCG_MAX_FPOWM_N))
+/* side condition of the abstract integers (machine arithmetic treated as mathematical) for every message */
+__CPROVER_requires(__CPROVER_forall { size_t kk; (kk < GCAP) ==> WORD_OK(m->cells[kk].v) })
+__CPROVER_assigns(__tmcg_thrown, __CPROVER_object_whole(self->g.data), __CPROVER_object_whole(m->data), vec_tab_slot)
+/* C05: an opening is accepted only if the randomiser lies below the group order and the commitment in 1..p-1 --
+ * out-of-range values are refused, not reduced */
+__CPROVER_ensures(__CPROVER_return_value ==> (V(r) < Q && 0 < V(c) && V(c) < P))
+//@ loop 1
+__CPROVER_assigns(i, V(tmp), V(c2), __tmcg_thrown, __CPROVER_object_whole(self->g.data), __CPROVER_object_whole(m->data), vec_tab_slot)
+__CPROVER_loop_invariant(i <= m->size && __tmcg_thrown == 0)
+__CPROVER_decreases(m->size - i)
+//@ end
